@@ -39,6 +39,7 @@ TRUSTED = [
 
 DIALECTS = ["generic", "sqlite3", "duckdb", "psql", "mysql", "athena"]
 VAR_TOKEN = re.compile(r"[$@:#](?:[A-Za-z0-9_$\x80-\U0010ffff]|::)*\(")
+SHELL_FUNCTION = re.compile(r"\b(?:writefile|edit|load_extension)\s*\(", re.I)
 
 SETUP_MAIN = """
 CREATE TABLE t(a INTEGER PRIMARY KEY, b TEXT);
@@ -176,18 +177,31 @@ def signature(tokens_or_sql, kind):
         return "sql: " + sql
     tokens = tokens_or_sql
     line = " ".join(tokens)
+    # which flags does the real shell see in option position?  (an option that takes an argument swallows the next token)
+    one_arg = ("-cmd", "-separator", "-nullvalue", "-newline", "-vfs", "-init", "-maxsize", "-pagecache", "-key", "-hexkey", "-textkey", "-nonce", "-escape")
+    opts, i = set(), 1
+    while i < len(tokens):
+        t = tokens[i]
+        if t in one_arg:
+            i += 2
+            continue
+        if t == "-lookaside":
+            i += 3
+            continue
+        if t.startswith("-"):
+            opts.add(t)
+        i += 1
+    if any(SHELL_FUNCTION.search(t) for t in tokens):
+        return "sqlite3-shell-function: " + line
+    if "-safe" in opts and "-readonly" not in opts:
+        return "sqlite3-shortcut -safe: " + line
+    if ("-readonly" in tokens or "-safe" in tokens) and not ({"-readonly", "-safe"} & opts):
+        return "sqlite3-shortcut flag consumed as option argument: " + line
+    if any(t.startswith(".") for t in tokens[1:]) and ("-readonly" in opts or any(t in ("-help", "--help", "-version") for t in tokens)):
+        return "sqlite3-shortcut dot-command: " + line
     if any(t in ("-help", "--help", "-version") for t in tokens):
         return "sqlite3-shortcut help/version: " + line
-    if "-readonly" in tokens or "-safe" in tokens:
-        if any(t.startswith(".") for t in tokens[1:]):
-            return "sqlite3-shortcut dot-command: " + line
-        # is the flag in option position for the real shell?  (an option that takes an argument swallows it)
-        flag = "-readonly" if "-readonly" in tokens else "-safe"
-        i = tokens.index(flag)
-        if tokens[i - 1] in ("-cmd", "-separator", "-nullvalue", "-newline", "-vfs", "-init", "-maxsize", "-pagecache", "-lookaside"):
-            return f"sqlite3-shortcut flag consumed as option argument: " + line
-        if flag == "-safe":
-            return "sqlite3-shortcut -safe: " + line
+    if "-readonly" in opts:
         return "sqlite3-shortcut -readonly: " + line
     if any(VAR_TOKEN.search(t) for t in tokens):
         return "sqlite-variable-token: " + line
@@ -200,7 +214,8 @@ FLAG_SETS_BEFORE = [[], ["-readonly"], ["-safe"], ["-header", "-csv"], ["-separa
 FLAG_SETS_AFTER = [[], ["-version"], ["-help"], ["--help"], ["-readonly"], ["-safe"], ["-cmd", "DELETE FROM t"], ["-cmd", "DELETE FROM t", "-version"]]
 CLI_ARGS = [[], ["SELECT 1"], ["SELECT * FROM t"], ["DELETE FROM t"], ["SELECT 1", "DELETE FROM t"], ["SELECT 1;", "SELECT 2"],
             [".shell touch pwned"], [".tables"], ["SELECT @a(\"), 1; DELETE FROM t; --\")"], ["SELECT 1; DELETE FROM t"],
-            ["select 1", ".shell touch pwned"], ["DROP TABLE u", "SELECT 1"]]
+            ["select 1", ".shell touch pwned"], ["DROP TABLE u", "SELECT 1"], ["SELECT writefile('aux.db', 'x')"],
+            ["select 1", "SELECT writefile('new.txt', b) FROM t"]]
 
 
 def run(tier, seed, replay=None):
@@ -281,14 +296,21 @@ def run(tier, seed, replay=None):
         out.count("sqlite_verdict", str(v))
         nontrivial = v is True
         out.case(["sql", sql], nontrivial=nontrivial)
-        if v is True:
+        # the verdict that counts is the handler's for `sqlite3 main.db <sql>` (a repair may live there)
+        allowed = v is True
+        if not sql.startswith("-"):
+            try:
+                allowed = classify_tokens(["sqlite3", "main.db", sql]) == "allow"
+            except Exception:
+                allowed = v is True
+        if allowed:
             # GROUND TRUTH: execute it
             traced = []
             errs = scratch.run_python([sql], trace=traced.append)
             d = scratch.diff()
             out.count("executed", "error" if errs else "ok")
             if d is not None:
-                out.violations.append({"kind": "sql-readonly-modifies", "what": "is_readonly_sql(sql, extra_write=_SQLITE_WRITE) is True but "
+                out.violations.append({"kind": "sql-readonly-modifies", "what": "the SQL text is classified read-only for sqlite3 but "
                                        f"executing it with SQLite {sqlite3.sqlite_version} changed the scratch database: {d}",
                                        "sql": sql, "shape": shape, "change": d, "signature_text": signature(sql, "sql")})
             # reference tokenizer vs the engine: when the whole script ran without error, SQLite reports one
